@@ -41,6 +41,15 @@ Theorem C05_recover_step_commits : forall f s tip h k, Inv s tip -> nonneg_work 
   fst (add f (commit_crash_state f s h k) h) = fst (add f s h).
 Proof. exact commit_recover_step. Qed.
 
+(* ... and when the storage refuses one statement kind (the demoting UPDATE, the promoting UPDATE or the INSERT) *)
+Theorem C05_valid_after_statement_fault : forall f s tip h k, Inv s tip -> s_id h <> 0%N ->
+  exists tip', Inv (stmt_fault_state f s h k) tip'.
+Proof. exact stmt_fault_inv. Qed.
+
+Theorem C05_recover_step_statement_fault : forall f s tip h k, Inv s tip -> nonneg_work s -> s_id h <> 0%N ->
+  fst (add f (stmt_fault_state f s h k) h) = fst (add f s h).
+Proof. exact stmt_fault_recover_step. Qed.
+
 (* kill at ANY write k of ANY header i of ANY history, restart, re-deliver the whole history:
    the final store is exactly that of the uninterrupted run - it never remains stuck *)
 Theorem C05_recover : forall f gid gpl hs i k, gid <> 0%N -> nonzero_ids hs ->
@@ -58,5 +67,7 @@ Print Assumptions C05_acked_persist.
 Print Assumptions C05_recover_step.
 Print Assumptions C05_valid_everywhere_commits.
 Print Assumptions C05_recover_step_commits.
+Print Assumptions C05_valid_after_statement_fault.
+Print Assumptions C05_recover_step_statement_fault.
 Print Assumptions C05_recover.
 Print Assumptions C05_restart_noop.
